@@ -54,6 +54,22 @@ def bitLen (s : BitString) : Res Nat :=
   if (s.bits.length <<< 3) < s.unused.toNat then .error (.panic "bit_len underflow")
   else .ok ((s.bits.length <<< 3) - s.unused.toNat)
 
+/-- `BitString::new` (asserts `unused <= 7` and, for empty bits, `unused == 0`) -/
+def new (unused : UInt8) (bits : Bytes) : Res BitString :=
+  if unused > 7 || (bits.isEmpty && unused != 0) then .error (.panic "BitString::new assertion")
+  else .ok ⟨unused, bits⟩
+
+/-- `BitString::unused` -/
+def unusedBits (s : BitString) : UInt8 := s.unused
+/-- `BitString::octet_len` -/
+def octetLen (s : BitString) : Nat := s.bits.length
+/-- `BitString::octets()` collected -/
+def octets (s : BitString) : Bytes := s.bits.foldr (fun b acc => b :: acc) []
+/-- `BitString::octet_slice` (always `Some`: the bits are one `Bytes`) -/
+def octetSlice (s : BitString) : Option Bytes := some s.bits
+/-- `BitString::octet_bytes` -/
+def octetBytes (s : BitString) : Bytes := s.bits
+
 /-- `impl PrimitiveContent for BitString` -/
 def encLen (s : BitString) : Nat := s.bits.length + 1
 def enc (s : BitString) : Bytes := s.unused :: s.bits
